@@ -1,5 +1,6 @@
 SPECIFICATION SpecSim
 CONSTANTS
+  WithFeeGrant = FALSE
   MaxHeight = 8
   MaxTx = 16
   MaxFail = 5
